@@ -28,6 +28,8 @@ THEOREMS = [
     'C18.elastic_scaling', 'C18.density_shift_invariant', 'C18.elastic_shift_invariant',
     'C18.energy_state_only', 'C18.longrange_after_edit', 'C18.setters_frame', 'C18.solve_kwargs',
     'C18.solve_ends_fixed', 'C18.solve_interior', 'C18.recompose_decompose',
+    'C18.gamma_reload_state', 'C18.gamma_reload_conversions', 'C18.vec4to3_spec',
+    'C18.term_optional_args', 'C18.total_call_is_sum', 'C18.density_optional_args', 'C18.profile_setters_frame',
 ]
 PARTIAL = {
     'solve never raises the total energy': 'a property of scipy.optimize.minimize on the run at hand, not of the model (the '
@@ -169,6 +171,13 @@ def gen_gamma_spec(rng, regime=None, vects=None, grid=None, dup=None, delta=None
             'box': box, 'tag': tag, 'a1': a1, 'a2': a2, 'E': E, 'delta': D if use_delta else None}
 
 
+def vec3(v):
+    """3-index crystal vector of a shift vector given with 3 or 4 (Miller-Bravais [u v t w]) indices: own formula
+    u a1 + v a2 + t a3 + w c with a3 = -(a1 + a2), u + v + t = 0  ->  (2u + v) a1 + (u + 2v) a2 + w c."""
+    v = list(v)
+    return v if len(v) == 3 else [2 * v[0] + v[1], v[0] + 2 * v[1], v[3]]
+
+
 def mk_gamma(spec):
     import atomman as am
     np = _np()
@@ -184,7 +193,7 @@ def mk_gamma(spec):
 def cart_vects(spec):
     np = _np()
     B = np.eye(3) if spec['box'] is None else np.array(spec['box'], dtype=float)
-    return np.dot(np.array(spec['a1vect'], dtype=float), B), np.dot(np.array(spec['a2vect'], dtype=float), B), B
+    return np.dot(np.array(vec3(spec['a1vect']), dtype=float), B), np.dot(np.array(vec3(spec['a2vect']), dtype=float), B), B
 
 
 class Rec:
@@ -304,14 +313,21 @@ def _ask(ctx, line, key, info):
     return cm.unfrs(out), out
 
 
-def _fit_case(ctx, spec, g, which='E'):
-    """model fit nodes vs the nodes the implementation handed to Rbf.  Returns (c1, c2) wire strings."""
+def _gl(obj, op, head):
+    """driver op that gets the Cartesian shift vectors on the wire (stateless) or reads them from the CURRENT state
+    of the model's GammaSurface object (`g...` ops)."""
+    return ('g' + op) if obj else f'{op} {head}'
+
+
+def _fit_case(ctx, spec, g, which='E', obj=False, exact_e=True):
+    """model fit nodes vs the nodes the implementation handed to Rbf.  Returns (c1, c2) wire strings.
+    `obj`: the data are those of the model OBJECT (after a `gset`/`gload`), not sent again."""
     np = _np()
     vals = spec['E'] if which == 'E' else spec['delta']
     n = len(vals)
     line = f'fit {n} ' + cm.frs(spec['a1']) + ' ' + cm.frs(spec['a2']) + ' ' + cm.frs(vals)
-    out = ctx.driver.ask(line)
-    ctx.stats.case('fit', line, sample={'op': 'fit', 'grid': [spec['n1'], spec['n2']], 'dup': spec['dup'],
+    out = ctx.driver.ask(f'gfit {0 if which == "E" else 1}' if obj else line)
+    ctx.stats.case('fit:obj' if obj else 'fit', line, sample={'op': 'fit', 'grid': [spec['n1'], spec['n2']], 'dup': spec['dup'],
                                         'vects': spec['tag'], 'field': which})
     rep = {'op': 'fit', 'spec': spec, 'field': which}
     if out.startswith('err:'):
@@ -325,7 +341,7 @@ def _fit_case(ctx, spec, g, which='E'):
     xi, di = np.asarray(fit.xi), np.asarray(fit.di)
     nearest = g._GammaSurface__E_gsf_nearest if which == 'E' else g._GammaSurface__delta_nearest
     ok = xi.shape == (2, N) and cm.allclose(xi[0], m1, 0, 1e-12) and cm.allclose(xi[1], m2, 0, 1e-12) \
-        and all(F(float(a)) == b for a, b in zip(di, me))
+        and (all(F(float(a)) == b for a, b in zip(di, me)) if exact_e else cm.allclose(di, me, 1e-14, 1e-300))
     ok = ok and np.asarray(nearest.points).shape == (N, 2) and np.array_equal(np.asarray(nearest.points).T, xi) \
         and np.array_equal(np.asarray(nearest.values).ravel(), di)
     if not ok:
@@ -343,7 +359,7 @@ def _wrap_exempt(spec, q, c):
     return abs(t - round(t)) < F(1, 10 ** 9)
 
 
-def _egsf_case(ctx, spec, g, rec, cs, queries, via='a12', xname='default'):
+def _egsf_case(ctx, spec, g, rec, cs, queries, via='a12', xname='default', obj=False):
     """E_gsf through one of its three entry points (`a1=,a2=` | `pos=` | `x=,y=[,xvect=]`): the query is reduced
     to fractional coordinates by the model (`Query.toA12?`), wrapped and blended by the model with the
     interpolant values the implementation used."""
@@ -361,29 +377,30 @@ def _egsf_case(ctx, spec, g, rec, cs, queries, via='a12', xname='default'):
         A1, A2, _ = cart_vects(spec)
         head = cm.frs(A1) + ' ' + cm.frs(A2)
         m = len(queries)
-        P = np.array([float(t) for t in cm.unfrs(ctx.driver.ask(f'a2p {head} {m} ' + cm.frs([t for p in queries for t in p])))]).reshape(m, 3)
+        P = np.array([float(t) for t in cm.unfrs(ctx.driver.ask(f'{_gl(obj, "a2p", head)} {m} ' + cm.frs([t for p in queries for t in p])))]).reshape(m, 3)
         if via == 'pos':
             impl = call(g.E_gsf, pos=P.copy())
-            o2 = ctx.driver.ask(f'q2apos {head} {m} ' + cm.frs(P))
+            o2 = ctx.driver.ask(f'{_gl(obj, "q2apos", head)} {m} ' + cm.frs(P))
         elif via == 'vects':
             # fractional coordinates relative to ANOTHER basis of the plane, given as crystal vectors
-            v1, v2 = np.array(spec['a1vect']), np.array(spec['a2vect'])
+            v1, v2 = np.array(vec3(spec['a1vect'])), np.array(vec3(spec['a2vect']))
             w1, w2 = {'sum': (v1 + v2, v2), 'swap': (v2, v1), 'shear': (v1, v2 - 2 * v1), 'a1only': (v1 + v2, None)}[xname]
             B = np.eye(3) if spec['box'] is None else np.array(spec['box'], dtype=float)
             B1 = np.array([float(t) for t in cm.unfrs(ctx.driver.ask('cart ' + cm.frs(w1) + ' ' + cm.frs(B)))])
             B2 = A2 if w2 is None else np.array([float(t) for t in cm.unfrs(ctx.driver.ask('cart ' + cm.frs(w2) + ' ' + cm.frs(B)))])
             impl = call(g.E_gsf, a1=q1.copy(), a2=q2.copy(), a1vect=w1, **({} if w2 is None else {'a2vect': w2}))
-            o2 = ctx.driver.ask(f'q2avec {head} {cm.frs(B1)} {cm.frs(B2)} {m} ' + cm.frs([t for p in queries for t in p]))
+            o2 = ctx.driver.ask(f'{_gl(obj, "q2avec", head)} {cm.frs(B1)} {cm.frs(B2)} {m} ' + cm.frs([t for p in queries for t in p]))
         else:
             X = {'default': None, 'a2': A2.copy(), 'mix': A1 * 0.5 - A2 * 1.5}[xname]
             Xv = A1 if X is None else X
             nn = float(np.linalg.norm(np.cross(A1, A2)))
-            nx, ny, nz = _norms(g, Xv)
-            hd = ('none' if X is None else 'some ' + cm.frs(Xv)) + ' ' + head + ' ' + cm.frs([nn, nx, ny, nz])
-            o1 = ctx.driver.ask(f'p2xy {hd} {m} ' + cm.frs(P))
+            nx, ny, nz = _norms_spec(A1, A2, Xv) if obj else _norms(g, Xv)
+            hd = ('none' if X is None else 'some ' + cm.frs(Xv)) + ('' if obj else ' ' + head) + ' ' + cm.frs([nn, nx, ny, nz])
+            pre = 'g' if obj else ''
+            o1 = ctx.driver.ask(f'{pre}p2xy {hd} {m} ' + cm.frs(P))
             xy = np.array([float(t) for t in cm.unfrs(o1)]).reshape(m, 2)
             impl = call(g.E_gsf, x=xy[:, 0].copy(), y=xy[:, 1].copy(), **({} if X is None else {'xvect': X}))
-            o2 = ctx.driver.ask(f'q2axy {hd} {m} ' + cm.frs(xy))
+            o2 = ctx.driver.ask(f'{pre}q2axy {hd} {m} ' + cm.frs(xy))
         if o2.startswith('err:') or isinstance(impl, Raised):
             ctx.stats.case('egsf:' + via, (via, xname, spec['tag'], tuple(map(tuple, queries))))
             if not (isinstance(impl, Raised) and impl.cls == o2):
@@ -417,7 +434,7 @@ def _egsf_case(ctx, spec, g, rec, cs, queries, via='a12', xname='default'):
         ctx.disagree('egsf:driver-error', f'model refused: {out}', rep)
         return
     vals = cm.unfrs(out)
-    kind = 'egsf' if via == 'a12' else 'egsf:' + via
+    kind = ('egsf' if via == 'a12' else 'egsf:' + via) + (':obj' if obj else '')
     for i in range(m):
         w1, w2, x, y, e = vals[5 * i:5 * i + 5]
         ex = (not exact) and any(abs(F(q) + F(c) - round(F(q) + F(c))) < F(1, 10 ** 9) for q, c in ((fr[i][0], c1), (fr[i][1], c2)))
@@ -482,14 +499,22 @@ def _norms(g, X):
     return np.linalg.norm(tr, axis=1)
 
 
-def _conv_case(ctx, spec, g, rng):
+def _norms_spec(A1, A2, X):
+    """the same three row norms from the shift vectors of the DATA (not from attributes of the object)."""
+    np = _np()
+    N = np.cross(A1, A2)
+    N = N / np.linalg.norm(N)
+    return np.linalg.norm(np.array([X, np.cross(N, X), N]), axis=1)
+
+
+def _conv_case(ctx, spec, g, rng, obj=False):
     """coordinate conversions: model vs implementation on the same exact inputs.  Every call into atomman is
     guarded: an exception is an outcome that is compared with the model's."""
     np = _np()
     A1, A2, B = cart_vects(spec)
     rep = {'op': 'conv', 'spec': {k: spec[k] for k in ('a1vect', 'a2vect', 'box', 'tag')}}
     # cart
-    for v in (spec['a1vect'], spec['a2vect']):
+    for v in (vec3(spec['a1vect']), vec3(spec['a2vect'])):
         out = ctx.driver.ask('cart ' + cm.frs(v) + ' ' + cm.frs(B))
         impl = np.dot(np.array(v, dtype=float), g.box.vects)
         ctx.stats.case('cart', (tuple(v), spec['tag']))
@@ -506,8 +531,9 @@ def _conv_case(ctx, spec, g, rng):
     # a12 -> pos
     single = (m == 1 and rng.random() < 0.5)
     pos = call(g.a12_to_pos, q1[0], q2[0]) if single else call(g.a12_to_pos, q1, q2)
-    out = ctx.driver.ask(f'a2p {head} {m} ' + cm.frs([v for p in pts for v in p]))
-    ctx.stats.case('a2p', (spec['tag'], tuple(pts)), sample={'op': 'a12_to_pos', 'vects': spec['tag'], 'points': m})
+    K_ = ':obj' if obj else ''
+    out = ctx.driver.ask(f'{_gl(obj, "a2p", head)} {m} ' + cm.frs([v for p in pts for v in p]))
+    ctx.stats.case('a2p' + K_, (spec['tag'], tuple(pts)), sample={'op': 'a12_to_pos', 'vects': spec['tag'], 'points': m})
     if isinstance(pos, Raised) or np.shape(pos) != (m, 3) or not cm.allclose(np.ravel(pos), cm.unfrs(out), 1e-12, 1e-12 * scale):
         ctx.disagree('a12_to_pos', f'a12_to_pos differs ({spec["tag"]}, {m} points): implementation '
                      f'{pos if isinstance(pos, Raised) else np.asarray(pos).tolist()}, model {out[:80]}', dict(rep, pts=pts))
@@ -519,8 +545,8 @@ def _conv_case(ctx, spec, g, rng):
         r = call(g.pos_to_a12, P)
         impl = r.cls if isinstance(r, Raised) else np.array([np.ravel(r[0]), np.ravel(r[1])]).T.ravel()
         PP = np.atleast_2d(P)
-        out = ctx.driver.ask(f'p2a {head} {len(PP)} ' + cm.frs(PP))
-        ctx.stats.case('p2a', (spec['tag'], name, tuple(pts)), sample={'op': 'pos_to_a12', 'vects': spec['tag'], 'shape': list(np.shape(P))})
+        out = ctx.driver.ask(f'{_gl(obj, "p2a", head)} {len(PP)} ' + cm.frs(PP))
+        ctx.stats.case('p2a' + K_, (spec['tag'], name, tuple(pts)), sample={'op': 'pos_to_a12', 'vects': spec['tag'], 'shape': list(np.shape(P))})
         if isinstance(impl, str) or out.startswith('err:'):
             if impl != out:
                 ctx.disagree('pos_to_a12', f'pos_to_a12 ({name}) implementation {r}, model {out[:60]}', dict(rep, pos=PP.tolist()))
@@ -529,7 +555,7 @@ def _conv_case(ctx, spec, g, rng):
     off = pos[0] + np.cross(A1, A2) * rng.choice([0.5, -1.0, 1e-3])
     r = call(g.pos_to_a12, off)
     impl = r.cls if isinstance(r, Raised) else 'ok'
-    out = ctx.driver.ask(f'p2a {head} 1 ' + cm.frs(off))
+    out = ctx.driver.ask(f'{_gl(obj, "p2a", head)} 1 ' + cm.frs(off))
     ctx.stats.case('p2a:offplane', (spec['tag'], tuple(off)))
     if (impl == 'err:assert') != (out == 'err:assert') or (impl not in ('ok', 'err:assert')):
         ctx.disagree('pos_to_a12:assert', f'out-of-plane position: implementation {r if isinstance(r, Raised) else impl}, '
@@ -539,13 +565,14 @@ def _conv_case(ctx, spec, g, rng):
     nn = float(np.linalg.norm(np.cross(A1, A2)))
     for xname, X in (('default', None), ('a2', A2.copy()), ('mix', A1 * 0.5 - A2 * 1.5), ('offplane', A1 + np.cross(A1, A2))):
         Xv = A1 if X is None else X
-        nx, ny, nz = _norms(g, Xv)
+        nx, ny, nz = _norms_spec(A1, A2, Xv) if obj else _norms(g, Xv)
         xtok = 'none' if X is None else 'some ' + cm.frs(Xv)
-        hd = xtok + ' ' + head + ' ' + cm.frs([nn, nx, ny, nz])
+        hd = xtok + ('' if obj else ' ' + head) + ' ' + cm.frs([nn, nx, ny, nz])
+        pre = 'g' if obj else ''
         r = call(g.pos_to_xy, pos, xvect=X)
         impl = r.cls if isinstance(r, Raised) else np.array([np.ravel(r[0]), np.ravel(r[1])]).T.ravel()
-        out = ctx.driver.ask(f'p2xy {hd} {m} ' + cm.frs(pos))
-        ctx.stats.case('p2xy', (spec['tag'], xname, tuple(pts)), sample={'op': 'pos_to_xy', 'vects': spec['tag'], 'xvect': xname})
+        out = ctx.driver.ask(f'{pre}p2xy {hd} {m} ' + cm.frs(pos))
+        ctx.stats.case('p2xy' + K_, (spec['tag'], xname, tuple(pts)), sample={'op': 'pos_to_xy', 'vects': spec['tag'], 'xvect': xname})
         if isinstance(impl, str) or out.startswith('err:'):
             if impl != out:
                 ctx.disagree('pos_to_xy', f'pos_to_xy xvect={xname} ({spec["tag"]}): implementation {r}, model {out[:60]}', rep)
@@ -555,8 +582,8 @@ def _conv_case(ctx, spec, g, rng):
         ys = [cm.dyadic(rng, -4, 4, 3) for _ in range(m)]
         r = call(g.xy_to_pos, np.array(xs), np.array(ys), xvect=X)
         impl = r.cls if isinstance(r, Raised) else np.ravel(r)
-        out = ctx.driver.ask(f'xy2p {hd} {m} ' + cm.frs([v for p in zip(xs, ys) for v in p]))
-        ctx.stats.case('xy2p', (spec['tag'], xname, tuple(xs), tuple(ys)), sample={'op': 'xy_to_pos', 'vects': spec['tag'], 'xvect': xname})
+        out = ctx.driver.ask(f'{pre}xy2p {hd} {m} ' + cm.frs([v for p in zip(xs, ys) for v in p]))
+        ctx.stats.case('xy2p' + K_, (spec['tag'], xname, tuple(xs), tuple(ys)), sample={'op': 'xy_to_pos', 'vects': spec['tag'], 'xvect': xname})
         if isinstance(impl, str) or out.startswith('err:'):
             if impl != out:
                 ctx.disagree('xy_to_pos', f'xy_to_pos xvect={xname} ({spec["tag"]}): implementation {r}, model {out[:60]}',
@@ -565,6 +592,182 @@ def _conv_case(ctx, spec, g, rng):
             ctx.disagree('xy_to_pos', f'xy_to_pos differs ({spec["tag"]}, xvect={xname}): implementation '
                          f'{np.round(impl[:3], 6).tolist()}, model {[round(float(v), 6) for v in cm.unfrs(out)[:3]]}',
                          dict(rep, xy=[xs, ys]))
+
+
+# -- the GammaSurface OBJECT under reloads (set() / model(model=...) into a used object) -------------
+
+# 4-index (Miller-Bravais) shift vectors in a hexagonal cell: basal <a> directions, a prismatic setting with <c>
+HEXBOX = [[3.0, 0.0, 0.0], [-1.5, 2.598076211353316, 0.0], [0.0, 0.0, 5.0]]
+VECTS4 = [
+    ([0.75, -0.375, -0.375, 0.0], [-0.375, 0.75, -0.375, 0.0], HEXBOX, 'hex4-basal'),
+    ([1.0, -1.0, 0.0, 0.0], [0.0, 0.0, 0.0, 1.0], HEXBOX, 'hex4-prism'),
+    ([0.25, 0.25, -0.5, 0.0], [0.5, -0.25, -0.25, 1.0], HEXBOX, 'hex4-pyramidal'),
+]
+UNITS_E = ['mJ/m^2', 'eV/angstrom^2', 'J/m^2']
+UNITS_L = ['angstrom', 'nm', 'pm']
+
+
+def related_vects(rng, spec, kind):
+    """shift-vector setting for a RELOAD of an object that holds `spec`: anything else | the same vectors |
+    other vectors spanning the SAME plane in the same cell | the same crystal vectors in a rescaled cell."""
+    np = _np()
+    if kind == 'other':
+        return rng.choice(VECTS + VECTS4)
+    v1, v2 = np.array(vec3(spec['a1vect'])), np.array(vec3(spec['a2vect']))
+    box, tag = spec['box'], spec['tag'].split('~')[0]
+    if kind == 'same':
+        return (v1.tolist(), v2.tolist(), box, tag)
+    if kind == 'plane':
+        w1, w2 = rng.choice([(v1 + v2, v2), (v2, v1), (2 * v1, v2 - v1), (v1 - v2, 0.5 * v1 + 0.5 * v2), (v1, v2 + 0.5 * v1)])
+        return (np.asarray(w1, dtype=float).tolist(), np.asarray(w2, dtype=float).tolist(), box, tag + '~plane')
+    if kind == 'box':
+        f = rng.choice([1.25, 0.5, 2.0])
+        B = np.eye(3) if box is None else np.array(box, dtype=float)
+        return (v1.tolist(), v2.tolist(), (B * f).tolist(), tag + '~box')
+    raise ValueError(kind)
+
+
+def gen_reload_specs(rng, regime=None, first=None, steps=None):
+    """a first data set and 1-2 further ones to be loaded into the SAME object."""
+    regime = regime or rng.choice(['dyadic', 'generic'])
+    first = first or rng.choice(VECTS + VECTS4)
+    specs = [gen_gamma_spec(rng, regime=regime, vects=first, grid=rng.choice(GRIDS_DYADIC[:4] if regime == 'dyadic' else GRIDS_GENERIC[:6]))]
+    for k in range(steps or rng.choice([1, 2])):
+        kind = rng.choice(['plane', 'plane', 'box', 'same', 'other'])
+        reg = regime if rng.random() < 0.7 else ('generic' if regime == 'dyadic' else 'dyadic')
+        specs.append(gen_gamma_spec(rng, regime=reg, vects=related_vects(rng, specs[-1], kind),
+                                    grid=rng.choice(GRIDS_DYADIC[:4] if reg == 'dyadic' else GRIDS_GENERIC[:6])))
+    return specs
+
+
+def gen_reload_how(rng):
+    if rng.random() < 0.45:
+        return {'kind': 'set'}
+    return {'kind': 'model', 'form': rng.choice(['dm', 'json', 'xml']), 'lu': rng.choice(UNITS_L), 'eu': rng.choice(UNITS_E)}
+
+
+def reload_gamma(g, spec, how):
+    """load `spec` into the EXISTING object `g` the way `how` says; returns the DataModelDict used (or None)."""
+    import atomman as am
+    np = _np()
+    box = None if spec['box'] is None else am.Box(avect=spec['box'][0], bvect=spec['box'][1], cvect=spec['box'][2])
+    if how['kind'] == 'set':
+        g.set(spec['a1vect'], spec['a2vect'], np.array(spec['a1']), np.array(spec['a2']), np.array(spec['E']), box=box,
+              delta=None if spec['delta'] is None else np.array(spec['delta']))
+        return None
+    mdl = mk_gamma(spec).model(length_unit=how['lu'], energyperarea_unit=how['eu'])
+    g.model(model={'dm': mdl, 'json': mdl.json(), 'xml': mdl.xml()}[how['form']])
+    return mdl
+
+
+def _rec_wire(ctx, box, v1, v2, a1, a2, e, delta):
+    np = _np()
+    B = np.eye(3) if box is None else np.array(box, dtype=float)
+    w = []
+    for v in (v1, v2):
+        v = list(np.ravel(v))
+        w.append(cm.frs(v) if len(v) == 3 else ctx.driver.ask('v4to3 ' + cm.frs(v)))
+    return (f'{cm.frs(B)} {w[0]} {w[1]} {len(a1)} {cm.frs(a1)} {cm.frs(a2)} {cm.frs(e)} '
+            + ('0' if delta is None else '1 ' + cm.frs(delta)))
+
+
+def _gobj_state_case(ctx, spec, g, rep, how, mdl):
+    """after a (re)load: shift vectors, box, data and the generated model of the real object vs the model object."""
+    import atomman as am
+    np = _np()
+    uc = am.unitconvert
+    ctx.stats.case('gobj:state', (spec['tag'], spec['n1'], spec['n2'], str(how), tuple(spec['E'][:4])),
+                   sample={'op': 'reload of a used GammaSurface', 'how': how, 'vects': spec['tag'], 'grid': [spec['n1'], spec['n2']]})
+    what = f'after {how} of {spec["tag"]} {spec["n1"]}x{spec["n2"]} into a used object'
+    r = call(lambda: np.concatenate([np.dot(g.a1vect, g.box.vects), np.dot(g.a2vect, g.box.vects)]))
+    out = ctx.driver.ask('gcart')
+    scale = max(1.0, float(np.abs(g.box.vects).max()))
+    if isinstance(r, Raised) or out.startswith('err:') or not cm.allclose(r, cm.unfrs(out), 1e-12, 1e-13 * scale):
+        ctx.disagree('gobj:cart', f'{what}: Cartesian shift vectors {r if isinstance(r, Raised) else np.round(r, 6).tolist()}, '
+                     f'model object {out[:80]}', rep)
+        return False
+    out = cm.unfrs(ctx.driver.ask('gdata'))
+    n = int(out[0])
+    has = int(out[1 + 3 * n])
+    d = g.data
+    impl = np.concatenate([d.a1.values, d.a2.values, d.E_gsf.values] + ([d.delta.values] if 'delta' in d else []))
+    if len(d) != n or ('delta' in d) != bool(has) or not cm.allclose(impl, out[1:1 + 3 * n] + out[2 + 3 * n:], 1e-14, 1e-300):
+        ctx.disagree('gobj:data', f'{what}: stored data differ from the model object (rows {len(d)} vs {n}, delta {"delta" in d} vs {bool(has)})', rep)
+        return False
+    # the model generated from the CURRENT state, in other units
+    lu, eu = UNITS_L[(n + len(spec['tag'])) % 3], UNITS_E[n % 3]
+    m2 = call(g.model, length_unit=lu, energyperarea_unit=eu)
+    out = cm.unfrs(ctx.driver.ask(f'gmodel {cm.fr(uc.set_in_units(1.0, eu))} {cm.fr(uc.set_in_units(1.0, lu))}'))
+    ctx.stats.case('gobj:model', (spec['tag'], lu, eu, tuple(spec['E'][:4])))
+    if isinstance(m2, Raised):
+        ctx.disagree('gobj:model', f'{what}: model(length_unit={lu!r}, energyperarea_unit={eu!r}) {m2}', rep)
+        return False
+    sfm = m2['stacking-fault-map']
+    rel = sfm['stacking-fault-relation']
+    impl = np.concatenate([np.ravel(rel['shift-vector-1-fraction']), np.ravel(rel['shift-vector-2-fraction']), np.ravel(rel['energy']['value'])]
+                          + ([np.ravel(rel['plane-separation']['value'])] if 'plane-separation' in rel else []))
+    okm = (rel['energy']['unit'] == eu and ('plane-separation' not in rel or rel['plane-separation']['unit'] == lu)
+           and ('plane-separation' in rel) == bool(has) and cm.allclose(impl, out[1:1 + 3 * n] + out[2 + 3 * n:], 1e-13, 1e-300)
+           and np.allclose(np.array([sfm['box']['avect'], sfm['box']['bvect'], sfm['box']['cvect']], dtype=float), g.box.vects, rtol=1e-13, atol=1e-13)
+           and np.allclose(np.array(sfm['shift-vector-1'], dtype=float), g.a1vect) and np.allclose(np.array(sfm['shift-vector-2'], dtype=float), g.a2vect))
+    if not okm:
+        ctx.disagree('gobj:model', f'{what}: model(length_unit={lu!r}, energyperarea_unit={eu!r}) of the object differs from that of the model object', rep)
+    return True
+
+
+def _gseq_case(ctx, rng, specs, hows):
+    """ONE real GammaSurface and ONE model object: query (every query form) -> reload -> query again."""
+    import atomman as am
+    np = _np()
+    uc = am.unitconvert
+    rep = {'op': 'gseq', 'specs': specs, 'hows': hows}
+    g = None
+    for k, spec in enumerate(specs):
+        how = {'kind': 'new'} if k == 0 else hows[k - 1]
+        if k == 0:
+            g = call(mk_gamma, spec)
+            r = g
+        else:
+            r = call(reload_gamma, g, spec, how)
+        if isinstance(r, Raised):
+            ctx.disagree('gobj:raises', f'{how} of {spec["tag"]} {spec["n1"]}x{spec["n2"]}: {r}', rep)
+            return
+        if k > 0 and how['kind'] == 'model':
+            rel = r['stacking-fault-map']['stacking-fault-relation']
+            sfm = r['stacking-fault-map']
+            line = (f'gload {cm.fr(uc.set_in_units(1.0, how["eu"]))} {cm.fr(uc.set_in_units(1.0, how["lu"]))} '
+                    + _rec_wire(ctx, [sfm['box']['avect'], sfm['box']['bvect'], sfm['box']['cvect']], sfm['shift-vector-1'], sfm['shift-vector-2'],
+                                np.ravel(rel['shift-vector-1-fraction']), np.ravel(rel['shift-vector-2-fraction']), np.ravel(rel['energy']['value']),
+                                np.ravel(rel['plane-separation']['value']) if 'plane-separation' in rel else None))
+        else:
+            line = 'gset ' + _rec_wire(ctx, spec['box'], spec['a1vect'], spec['a2vect'], spec['a1'], spec['a2'], spec['E'], spec['delta'])
+        out = ctx.driver.ask(line)
+        if out != 'ok':
+            ctx.disagree('gobj:driver', f'model object refused {how}: {out}', rep)
+            return
+        exact_e = how['kind'] != 'model'
+        if not _gobj_state_case(ctx, spec, g, rep, how, r if k > 0 else None):
+            return
+        cs = guarded(ctx, 'gobj:fit', rep, _fit_case, ctx, spec, g, 'E', True, exact_e)
+        has = call(g.delta, a1=0.125, a2=0.375)
+        if isinstance(has, Raised) != (spec['delta'] is None):
+            ctx.disagree('gobj:delta', f'after {how}: delta() {has if isinstance(has, Raised) else "answers"} although the data now '
+                         f'{"have no" if spec["delta"] is None else "have"} plane-separation values', rep)
+        if spec['delta'] is not None:
+            guarded(ctx, 'gobj:fit', rep, _fit_case, ctx, spec, g, 'delta', True, exact_e)
+        if cs is None:
+            return
+        rec, recd = spy(g)
+        qs = gen_queries(rng, spec, ctx.n(6, 16), F(cs[0]), F(cs[1]))
+        guarded(ctx, 'gobj:egsf', rep, _egsf_case, ctx, spec, g, rec, cs, qs, 'a12', 'default', True)
+        guarded(ctx, 'gobj:egsf:pos', rep, _egsf_case, ctx, spec, g, rec, cs, qs, 'pos', 'default', True)
+        guarded(ctx, 'gobj:egsf:xy', rep, _egsf_case, ctx, spec, g, rec, cs, qs, 'xy', rng.choice(['default', 'a2', 'mix']), True)
+        guarded(ctx, 'gobj:egsf:vects', rep, _egsf_case, ctx, spec, g, rec, cs, qs, 'vects', rng.choice(['sum', 'swap', 'shear', 'a1only']), True)
+        if recd is not None and spec['delta'] is not None:
+            guarded(ctx, 'gobj:delta', rep, _delta_case, ctx, spec, g, recd, gen_queries(rng, spec, ctx.n(6, 16), F(0), F(0)))
+        rn, rnd = spy_nearest(g)
+        guarded(ctx, 'gobj:nearest', rep, _nearest_case, ctx, spec, g, rn, gen_queries(rng, spec, ctx.n(5, 12), F(0), F(0)))
+        guarded(ctx, 'gobj:conv', rep, _conv_case, ctx, spec, g, rng, True)
 
 
 # -- SDVPN ---------------------------------------------------------------------------------
@@ -738,12 +941,17 @@ def _sdvpn_case(ctx, name, pn, rec, cs, spec, rng, dyadic):
     rep = {'op': 'sdvpn', 'system': name, 'x': x.tolist(), 'disregistry': d.tolist(), 'settings': st}
     n = len(x)
     # dislocation density
+    xnu = np.cumsum([cm.dyadic(rng, 0.125, 1.5, 3) for _ in range(n)]) - 2.0     # NON-uniform grid (explicit arguments only)
     for cd in (False, True):
-        impl = pn.disldensity(x, d, cdiff=cd)[1]
-        out = ctx.driver.ask(f'dens {_b(cd)} {n} {cm.frs(x)} {cm.frs(d)}')
-        ctx.stats.case('disldensity', (name, cd, tuple(x), tuple(d.ravel())))
-        if out.startswith('err:') or not cm.allclose(impl.ravel(), cm.unfrs(out), 1e-11, 1e-12):
-            ctx.disagree('disldensity', f'disldensity(cdiff={cd}) differs ({name}, n={n})', rep)
+        for xx in (x, xnu):
+            r = call(pn.disldensity, xx, d, cdiff=cd)
+            out = ctx.driver.ask(f'dens {_b(cd)} {n} {cm.frs(xx)} {cm.frs(d)}')
+            ctx.stats.case('disldensity', (name, cd, tuple(xx), tuple(d.ravel())))
+            wantx = xx[1:-1] if cd else xx[1:]
+            if isinstance(r, Raised) or out.startswith('err:') or not cm.allclose(np.ravel(r[1]), cm.unfrs(out), 1e-11, 1e-12) \
+                    or not np.array_equal(np.asarray(r[0]), wantx):
+                ctx.disagree('disldensity', f'disldensity(cdiff={cd}) differs ({name}, n={n}, {"uniform" if xx is x else "non-uniform"} grid): '
+                             f'{r if isinstance(r, Raised) else ""}', dict(rep, x=xx.tolist()))
     terms, impl_misfit, lines = model_terms(ctx, pn, rec, cs, spec, x, d)
     rho_scale = float(np.abs(pn.disldensity(x, d)[1]).max()) + 1e-30
     kmax = float(np.abs(pn.K_tensor).max())
@@ -953,42 +1161,110 @@ def rand_op(rng, st, n):
             names.append('cutofflongrange')
         return {'kind': 'solve', 'kw': {a: ((not st[a]) if a in FLAGS else fresh[a]) for a in names},
                 'newprofile': rng.random() < 0.5}
-    return {'kind': 'load', 'settings': fresh, 'form': rng.choice(['dm', 'json', 'xml'])}
+    return {'kind': 'load', 'settings': fresh, 'form': rng.choice(['dm', 'json', 'xml']),
+            'units': [rng.choice(['Å', 'nm', 'pm']), rng.choice(['GPa', 'MPa', 'eV/Å^3'])]}
 
 
-def _eval_obj(ctx, name, pn, x, d, given, rep, step):
-    """the five table-free energy terms of the real object vs the model object, now."""
+def alt_profile(x, d):
+    """another grid / another disregistry with as many rows as the given ones (deterministic; uniform grid, y = 0)."""
     np = _np()
+    x, d = np.asarray(x, dtype=float), np.asarray(d, dtype=float)
+    x2 = x * 1.5 + 0.25
+    i = np.arange(len(d), dtype=float)
+    d2 = d * 0.75
+    d2[:, 0] += 0.125 * i
+    d2[:, 2] -= 0.0625 * i * ((-1.0) ** i)
+    d2[:, 1] = 0.0
+    return x2, d2
+
+
+MODES = ('both', 'none', 'x', 'd')
+
+
+def mode_args(mode, x, d, stored):
+    """(kwargs of the call, effective x, effective disregistry) for a subset of the optional arguments:
+    'both' = (x, d) given; 'none' = stored profile; 'x' = another grid only (stored disregistry); 'd' = another
+    disregistry only (stored grid)."""
+    if mode == 'both':
+        return {'x': x, 'disregistry': d}, x, d
+    sx, sd = stored
+    if mode == 'none':
+        return {}, sx, sd
+    x2, d2 = alt_profile(sx, sd)
+    if mode == 'x':
+        return {'x': x2}, x2, sd
+    return {'disregistry': d2}, sx, d2
+
+
+def _eval_obj(ctx, name, pn, x, d, mode, rep, step, stored=None, gam=None):
+    """the energy-term METHOD CALLS of the real object vs `Obj.call` of the model object, now, for one subset of
+    the optional arguments; `gam` = (Rbf recorder, cushions, gamma spec) adds the misfit term."""
+    np = _np()
+    if mode is True or mode is False:
+        mode = 'both' if mode else 'none'
+    if mode != 'both' and stored is None:
+        return
+    kw, x, d = mode_args(mode, np.asarray(x), np.asarray(d), stored)
+    x, d = np.asarray(x, dtype=float), np.asarray(d, dtype=float)
     n = len(x)
-    prof = f'1 {n} {cm.frs(x)} {cm.frs(d)}' if given else '0'
+    prof = ' '.join(['1 ' + f'{n} {cm.frs(x)}' if 'x' in kw else '0', '1 ' + f'{n} {cm.frs(d)}' if 'disregistry' in kw else '0'])
     cde = pn.cdiffelastic
     dx = x[1] - x[0]
     nrho = n - (2 if cde else 1)
     logs = [float(np.log(np.abs(k) * dx)) for k in range(1, nrho + 1)]
     names = ['long', 'stress', 'surface', 'nonlocal', 'elastic']
-    outs = ctx.driver.ask_many([f'oeval {t} {prof}' + (' ' + cm.frs(logs) if t == 'elastic' else '') for t in names])
-    a = (x, d) if given else ()
-    impl = {'long': call(pn.longrange_energy), 'stress': call(pn.stress_energy, *a),
-            'surface': call(pn.surface_energy, *a), 'nonlocal': call(pn.nonlocal_energy, *a),
-            'elastic': call(pn.elastic_energy, *a)}
+    lines = [f'ocall {t} {prof}' + (' ' + cm.frs(logs) if t == 'elastic' else '') for t in names]
+    impl = {'long': call(pn.longrange_energy), 'stress': call(pn.stress_energy, **kw),
+            'surface': call(pn.surface_energy, **kw), 'nonlocal': call(pn.nonlocal_energy, **kw),
+            'elastic': call(pn.elastic_energy, **kw)}
     rho_scale = float(np.abs(np.diff(np.asarray(d), axis=0)).max() / abs(dx)) + 1e-30
     kmax = float(np.abs(pn.K_tensor).max())
     lscale = max(abs(math.log(dx)), abs(math.log(n * dx)), 1.5)
     tol = {'elastic': 1e-9 * n ** 3 * dx * dx * lscale * kmax * rho_scale ** 2, 'long': 1e-11, 'stress': 1e-10,
            'surface': 1e-10, 'nonlocal': 1e-10}
+    if gam is not None:
+        rec, cs, spec = gam
+        rec.calls.clear()
+        impl['misfit'] = call(pn.misfit_energy, **kw)
+        if len(rec.calls) == 4 and len(rec.calls[0][1]) == n and not misfit_exempt(pn, spec, cs, d):
+            A1, A2, _ = cart_vects(spec)
+            rows = [rec.calls[k][1][i] for i in range(n) for k in range(4)]
+            names.append('misfit')
+            lines.append(f'ocall misfit {prof} {cm.frs(A1)} {cm.frs(A2)} {cs[0]} {cs[1]} {n} ' + cm.frs(rows))
+            tol['misfit'] = 1e-9 * max(1.0, max(abs(v) for v in spec['E'])) * n * abs(dx)
+        elif isinstance(impl['misfit'], Raised) or len(rec.calls) != 4 or len(rec.calls[0][1]) != n:
+            ctx.disagree('obj:misfit', f'misfit_energy({sorted(kw)}) after step {step}: {impl["misfit"] if isinstance(impl["misfit"], Raised) else "interpolant asked for " + str(len(rec.calls[0][1]) if rec.calls else 0) + " points, effective profile has " + str(n)}',
+                         dict(rep, step=step, term='misfit', mode=mode))
+    outs = ctx.driver.ask_many(lines)
+    what = f'({", ".join(k + "=" for k in kw)})'
     for t, o in zip(names, outs):
-        ctx.stats.case('obj:' + t, (name, step, prof[:400], o[:60]),
-                       sample={'op': f'{t} after edit sequence', 'system': name, 'step': step, 'stored_profile': not given})
+        ctx.stats.case('obj:' + t, (name, step, mode, prof[:400], o[:60]),
+                       sample={'op': f'{t}_energy{what} after edit sequence', 'system': name, 'step': step, 'arguments': mode})
         if isinstance(impl[t], Raised) or o.startswith('err:'):
-            ctx.disagree('obj:' + t, f'{t}_energy after step {step} ({rep["ops"][step - 1] if step else "fresh"}): '
-                         f'implementation {impl[t]}, model {o[:60]}', dict(rep, step=step, term=t))
+            ctx.disagree('obj:' + t, f'{t}_energy{what} after step {step} ({rep["ops"][step - 1] if step else "fresh"}): '
+                         f'implementation {impl[t]}, model {o[:60]}', dict(rep, step=step, term=t, mode=mode))
         elif not cm.close(float(impl[t]), Fraction(o), 1e-9, tol[t]):
-            ctx.disagree('obj:' + t, f'{t}_energy after step {step} ({rep["ops"][step - 1] if step else "fresh object"}) = '
-                         f'{float(impl[t])!r}, model object {float(Fraction(o))!r} ({name})', dict(rep, step=step, term=t))
+            ctx.disagree('obj:' + t, f'{t}_energy{what} after step {step} ({rep["ops"][step - 1] if step else "fresh object"}) = '
+                         f'{float(impl[t])!r}, model object {float(Fraction(o))!r} ({name}; arguments given: {mode})', dict(rep, step=step, term=t, mode=mode))
+    # disldensity(x=, disregistry=, cdiff=) with the same subset: coordinates and density
+    for cd in (False, True):
+        r = call(pn.disldensity, cdiff=cd, **kw)
+        o = ctx.driver.ask(f'ocall dens {prof} {_b(cd)}')
+        ctx.stats.case('obj:dens', (name, step, mode, cd, prof[:400]))
+        if isinstance(r, Raised) or o.startswith('err:'):
+            ctx.disagree('obj:dens', f'disldensity{what} cdiff={cd} after step {step}: implementation {r}, model {o[:60]}', dict(rep, step=step, mode=mode))
+            continue
+        mv = cm.unfrs(o)
+        k = int(mv[0])
+        if np.shape(r[0]) != (k,) or np.shape(r[1]) != (k, 3) or not cm.allclose(r[0], mv[1:1 + k], 1e-12, 1e-13) \
+                or not cm.allclose(np.ravel(r[1]), mv[1 + k:], 1e-11, 1e-12):
+            ctx.disagree('obj:dens', f'disldensity{what} cdiff={cd} after step {step}: coordinates / density differ from the model object '
+                         f'({name}; arguments given: {mode})', dict(rep, step=step, mode=mode))
 
 
-def _seq_case(ctx, name, v, g, spec, rng):
-    """ONE real object and ONE model object under the same edit sequence; energies compared after every step."""
+def _seq_case(ctx, name, v, g, spec, rng, gam=None):
+    """ONE real object and ONE model object under the same edit sequence; energies compared after every step, with
+    every subset of the optional arguments of the term methods once the object has a stored profile."""
     import atomman as am
     np = _np()
     mod = sys.modules['atomman.defect.SDVPN']
@@ -999,13 +1275,33 @@ def _seq_case(ctx, name, v, g, spec, rng):
     rep = {'op': 'seq', 'system': name, 'spec': spec, 'settings0': dict(st), 'x': x.tolist(), 'd': d.tolist(), 'ops': ops}
     K0, b0, T0 = pn.K_tensor.copy(), pn.burgers.copy(), pn.transform.copy()
     ctx.driver.ask('onew ' + settings_wire(K0, b0, T0, st))
-    _eval_obj(ctx, name, pn, x, d, True, rep, 0)
+    _eval_obj(ctx, name, pn, x, d, True, rep, 0, gam=gam)
+    stored = None
+
+    def eval_all(step):
+        for mode in MODES:
+            _eval_obj(ctx, name, pn, x, d, mode, rep, step, stored, gam)
     for step in range(1, rng.randint(2, 5) + 1):
         if rng.random() < 0.2:
             x2, d2 = rescaled_profile(rng, pn, x)
             x, d = np.array(x2), np.array(d2)
             ops.append({'kind': 'profile', 'x': x2, 'd': d2})
-            _eval_obj(ctx, name, pn, x, d, True, rep, step)
+            eval_all(step)
+            continue
+        if stored is None and rng.random() < 0.6 or rng.random() < 0.1:
+            # the property setters obj.x = ..., obj.disregistry = ... (one or both once a profile is stored)
+            sx, sd = gen_profile(rng, pn, n=(None if stored is None or rng.random() < 0.5 else len(stored[0])), dyadic=True)
+            which = 'xd' if stored is None or len(sx) != len(stored[0]) else rng.choice(['xd', 'x', 'd'])
+            ops.append({'kind': 'store', 'which': which, 'x': sx.tolist(), 'd': sd.tolist()})
+            for f, val, wire in (('x', sx, f'{len(sx)} {cm.frs(sx)}'), ('d', sd, f'{len(sd)} {cm.frs(sd)}')):
+                if f in which:
+                    r = call(setattr, pn, 'x' if f == 'x' else 'disregistry', val.copy())
+                    out = ctx.driver.ask(f'oset {f} {wire}')
+                    if isinstance(r, Raised) or out != 'ok':
+                        ctx.disagree('obj:set', f'setting the stored {f}: implementation {r}, model {out}', dict(rep, step=step))
+                        return
+            stored = (sx if 'x' in which else stored[0], sd if 'd' in which else stored[1])
+            eval_all(step)
             continue
         op = rand_op(rng, st, len(x))
         ops.append(op)
@@ -1043,13 +1339,13 @@ def _seq_case(ctx, name, v, g, spec, rng):
                 return
             op['res'] = fake.out.tolist()
             d = got.copy()
-            _eval_obj(ctx, name, pn, x, d, False, rep, step)       # the stored profile
+            stored = (np.array(x, dtype=float), d.copy())
         else:
             st2 = op['settings']
             src = new_pn(v, g, st2)
             x, d = gen_profile(rng, src, dyadic=True)
             src.x, src.disregistry = x, d
-            m = src.model(include_gamma=False)
+            m = src.model(include_gamma=False, length_unit=op['units'][0], pressure_unit=op['units'][1])
             form = {'dm': m, 'json': m.json(), 'xml': m.xml()}[op['form']]
             r = call(pn.load, form, gamma=g)
             out = ctx.driver.ask('oload ' + settings_wire(K0, b0, T0, st2) + f' {len(x)} {cm.frs(x)} {cm.frs(d)}')
@@ -1064,6 +1360,7 @@ def _seq_case(ctx, name, v, g, spec, rng):
                 return
             x, d = sx.copy(), sd.copy()
             op['x'], op['d'] = x.tolist(), d.tolist()
+            stored = (x.copy(), d.copy())
         # frame: what was not edited is unchanged; what was edited is what was set
         bad = [a for a in ('tau', 'beta') if not np.allclose(np.asarray(getattr(pn, a)), np.array(st[a]), rtol=1e-12, atol=1e-15)]
         bad += [a for a in FLAGS if getattr(pn, a) is not st[a]]
@@ -1073,7 +1370,7 @@ def _seq_case(ctx, name, v, g, spec, rng):
             bad.append('cutofflongrange')
         if bad:
             ctx.disagree('obj:frame', f'after {op["kind"]} the attributes {bad} are not what was set ({name})', dict(rep, step=step))
-        _eval_obj(ctx, name, pn, x, d, True, rep, step)
+        eval_all(step)
 
 
 def correspond(ctx):
@@ -1116,6 +1413,29 @@ def correspond(ctx):
             guarded(ctx, 'nearest', rep, _nearest_case, ctx, spec, g, rnd, gen_queries(rng, spec, ctx.n(4, 10), F(0), F(0)), 'delta')
         guarded(ctx, 'conv', rep, _conv_case, ctx, spec, g, rng)
     ctx.extra['t_gamma_s'] = round(time.time() - t0, 2)
+    # ---- ONE GammaSurface object under reloads: query -> set()/model(model=) with other vectors, box, data -> query
+    t0 = time.time()
+    firsts = VECTS + VECTS4
+    for it in range(ctx.n(10, 60)):
+        specs = gen_reload_specs(rng, regime=('dyadic' if it % 2 == 0 else 'generic'), first=firsts[(it * 5) % len(firsts)])
+        hows = [gen_reload_how(rng) for _ in specs[1:]]
+        guarded(ctx, 'gobj', {'op': 'gseq', 'specs': specs, 'hows': hows}, _gseq_case, ctx, rng, specs, hows)
+    # 4-index shift vectors: accepted iff u + v + t = 0
+    for it in range(ctx.n(6, 30)):
+        u, v_ = cm.dyadic(rng, -2, 2, 3), cm.dyadic(rng, -2, 2, 3)
+        t_ = -(u + v_) + rng.choice([0.0, 0.0, 0.0, 0.5, 1e-9, -1e-7])
+        vec = [u, v_, t_, cm.dyadic(rng, -2, 2, 2)]
+        sp = gen_gamma_spec(rng, regime='dyadic', vects=(vec, [0.0, 0.0, 0.0, 1.0] if abs(vec[3]) < 0.1 else [1.0, -1.0, 0.0, 0.0], HEXBOX, 'hex4-random'), grid=(4, 4))
+        gg = call(mk_gamma, sp)
+        out = ctx.driver.ask('v4to3 ' + cm.frs(vec))
+        ctx.stats.case('v4to3', tuple(vec), sample={'op': 'GammaSurface(a1vect=[u, v, t, w])', 'a1vect': vec})
+        got = gg.cls if isinstance(gg, Raised) else None
+        if (got is not None or out.startswith('err:')) and got != out:
+            if not (isinstance(gg, Raised) and not out.startswith('err:') and 'Singular' in gg.text):
+                ctx.disagree('v4to3', f'GammaSurface(a1vect={vec}): implementation {gg if isinstance(gg, Raised) else "accepts"}, model {out[:60]}', {'op': 'v4to3', 'vec': vec})
+        elif got is None and not cm.allclose(gg.a1vect, cm.unfrs(out), 1e-14, 1e-15):
+            ctx.disagree('v4to3', f'GammaSurface(a1vect={vec}).a1vect = {gg.a1vect.tolist()}, model {out}', {'op': 'v4to3', 'vec': vec})
+    ctx.extra['t_gamma_obj_s'] = round(time.time() - t0, 2)
     # ---- SDVPN
     t1 = time.time()
     for si, name in enumerate(SYSTEMS):
@@ -1143,7 +1463,7 @@ def correspond(ctx):
         for it in range(ctx.n(2, 10)):
             guarded(ctx, 'solve-embed', rep, _solve_embed_case, ctx, name, pn, rng)
         for it in range(ctx.n(3, 20)):
-            guarded(ctx, 'obj', rep, _seq_case, ctx, name, v, g, spec, rng)
+            guarded(ctx, 'obj', rep, _seq_case, ctx, name, v, g, spec, rng, (rec, cs, spec))
     for it in range(ctx.n(30, 300)):
         guarded(ctx, 'arctan', {'op': 'arctan'}, _arctan_case, ctx, rng)
     ctx.extra['t_sdvpn_s'] = round(time.time() - t1, 2)
@@ -1169,7 +1489,7 @@ def fvec(v):
 def o_cart(spec):
     """exact Cartesian shift vectors `a1vect . vects`, `a2vect . vects` (rows of vects are a, b, c)."""
     B = [[F(1), F(0), F(0)], [F(0), F(1), F(0)], [F(0), F(0), F(1)]] if spec['box'] is None else [fvec(r) for r in spec['box']]
-    a1, a2 = fvec(spec['a1vect']), fvec(spec['a2vect'])
+    a1, a2 = fvec(vec3(spec['a1vect'])), fvec(vec3(spec['a2vect']))
     A1 = [sum(a1[k] * B[k][c] for k in range(3)) for c in range(3)]
     A2 = [sum(a2[k] * B[k][c] for k in range(3)) for c in range(3)]
     return A1, A2
@@ -1379,7 +1699,7 @@ def chk_gamma(ctx, case):
         bad('interchangeable', f'E_gsf(pos=) != E_gsf(a1=, a2=) for the same points: {w}; a1={q1.tolist()}, a2={q2.tolist()}')
     # fractional coordinates relative to another basis of the plane (a1vect=, a2vect= keywords): with
     # B1 = v1 + v2, B2 = v2 the point (a1, a2) is the surface's own (a1, a1 + a2); B1 = v2, B2 = v1 swaps them
-    v1, v2 = np.array(spec['a1vect'], dtype=float), np.array(spec['a2vect'], dtype=float)
+    v1, v2 = np.array(vec3(spec['a1vect']), dtype=float), np.array(vec3(spec['a2vect']), dtype=float)
     for nm, kw, (o1, o2) in (('a1vect=v1+v2, a2vect=v2', {'a1vect': v1 + v2, 'a2vect': v2}, (q1, q1 + q2)),
                               ('a1vect=v1+v2', {'a1vect': v1 + v2}, (q1, q1 + q2)),
                               ('a1vect=v2, a2vect=v1', {'a1vect': v2, 'a2vect': v1}, (q2, q1)),
@@ -1413,7 +1733,7 @@ def chk_gamma(ctx, case):
             continue
         w = (_cmp(g2.data.a1.values, spec['a1'], 1e-14, 1e-15) or _cmp(g2.data.a2.values, spec['a2'], 1e-14, 1e-15)
              or _cmp(g2.data.E_gsf.values, spec['E'], 1e-12, 1e-14 * scale)
-             or _cmp(g2.a1vect, spec['a1vect'], 1e-14, 0) or _cmp(g2.a2vect, spec['a2vect'], 1e-14, 0)
+             or _cmp(g2.a1vect, vec3(spec['a1vect']), 1e-14, 0) or _cmp(g2.a2vect, vec3(spec['a2vect']), 1e-14, 0)
              or _cmp(g2.box.vects, g.box.vects, 1e-12, 1e-14 * L)
              or (('delta' in g2.data) != has_d and 'plane-separation data lost/invented')
              or (has_d and _cmp(g2.data.delta.values, spec['delta'], 1e-12, 1e-14)))
